@@ -59,6 +59,7 @@ void h_matmul_el(void){
   OBS(out); OBS(os[0]);
   REACHED();
 }
+#ifndef V2   /* the mixed-type kernels exist in the view::matmul (v1) translation unit only */
 /* mixed element types: uint8 @ uint16 (WIDE=1: uint16 @ uint8); uint16 values are 256 + byte. The result element type is the common type uint16 (NumPy: uint8 @ uint16 -> uint16), the element the sum of products mod 2^16 */
 void h_matmul_mixed(void){
   u64 sa[3] = {A0, A1, 1}, sb[3] = {B0, B1, 1}, idx[4] = {0}, os[4] = {0}, od = 0, esz = 0; u8 da[16], db[16]; u32 out = 0;
@@ -82,4 +83,5 @@ void h_matmul_mixed(void){
   ASSERT(out == (u32)(u16)acc, "element == sum_k a[i,k]*b[k,j] in the common type uint16 (mod 2^16, as NumPy)");
   OBS(out); OBS(esz); REACHED();
 }
+#endif
 #endif
